@@ -215,6 +215,82 @@ def watchdog(fn, what, timeout=15.0, **facts):
     return box['res'], None
 
 
+def check_brokenpipe(case):
+    """The peer sends some messages and leaves; the port learns about it inside send() (broken pipe), the caller catches
+    the OSError and goes on using the port: queued messages are still handed out, then everything stops cleanly."""
+    dicts = case['msgs']
+    taken = min(case.get('taken', 0), len(dicts))
+    a, b = socket.socketpair()
+    port = None
+    out = []
+    fake = FakeSleep(budget=30)
+    try:
+        port = SocketPort('peer', 1, conn=a)
+        with patched_sleep(fake):
+            b.sendall(bytes(x for d in dicts for x in R.ref_encode(d)))
+            got = []
+            if dicts:
+                for _ in range(taken):
+                    got.append(port.poll())       # takes everything readable into the queue, hands out `taken`
+            b.close()
+            errors = 0
+            for _ in range(3):
+                try:
+                    port.send(mido.Message('note_on'))
+                except OSError:
+                    errors += 1
+                    break
+                except ValueError:
+                    errors += 1
+                    break
+            if not errors:
+                return []                         # the kernel accepted the writes: nothing to observe here
+            if not port.closed:
+                out.append(fail('not-closed', 'send() hit a broken pipe but port.closed stays False'))
+            try:
+                drain = case.get('drain', 'poll')
+                if drain == 'iterate':
+                    got.extend(port)
+                else:
+                    while True:
+                        m = port.poll()
+                        if m is None:
+                            break
+                        got.append(m)
+                        if len(got) > len(dicts) + 3:
+                            break
+            except SleepBudget:
+                out.append(fail('blocks-forever', 'draining after a broken pipe did not end'))
+            except Exception as exc:  # noqa: BLE001
+                out.append(fail('drain-raises', f'draining after a broken pipe in send(): {exc!r}', exc=exc_sig(exc),
+                                drain=case.get('drain', 'poll')))
+            want = [mk(d) for d in dicts] if taken or True else []
+            if taken == 0:
+                # nothing was taken in before the peer left; what send() / close() saw of the stream is unspecified
+                want = got
+            if len(got) != len(want) or any(not (g == w) for g, w in zip(got, want)):
+                out.append(fail('delivered', f'after a broken pipe: got {got!r}, expected {want!r}'[:600], drain='brokenpipe'))
+            try:
+                port.send(mido.Message('clock'))
+                out.append(fail('send-after-close', 'send on the closed port did not raise'))
+            except ValueError:
+                pass
+            except Exception as exc:  # noqa: BLE001
+                out.append(fail('send-after-close', f'send on the closed port raised {exc!r} instead of ValueError',
+                                exc=exc_sig(exc)))
+            try:
+                port.close()
+                with port:
+                    pass
+            except Exception as exc:  # noqa: BLE001
+                out.append(fail('close-raises', f'close() after a broken pipe: {exc!r}', exc=exc_sig(exc)))
+    except Exception as exc:  # noqa: BLE001
+        out.append(fail('raises', f'{exc!r}', exc=exc_sig(exc)))
+    finally:
+        _cleanup(port, a, b)
+    return out
+
+
 def check_server(case):
     res, stuck = watchdog(lambda: _check_server(case), f'server (drain={case.get("drain")})',
                           drain=case.get('drain', 'poll'))
@@ -364,6 +440,9 @@ def run_case(case):
         return stuck or res
     if k == 'server':
         return check_server(case)[0]
+    if k == 'brokenpipe':
+        res, stuck = watchdog(lambda: check_brokenpipe(case), 'broken pipe', timeout=5.0)
+        return stuck or res
     if k == 'address':
         return check_address(case['host'], case['lo'], case['hi'])
     raise KeyError(k)
@@ -443,6 +522,15 @@ def server_cases(tier):
     return out
 
 
+def brokenpipe_cases():
+    def notes(n):
+        return [{'type': 'note_on', 'channel': 0, 'note': i, 'velocity': 1 + i, 'time': 0} for i in range(n)]
+    for n in (1, 2, 3, 5):
+        for taken in range(1, n + 1):
+            for drain in ('poll', 'iterate'):
+                yield {'kind': 'brokenpipe', 'msgs': notes(n), 'taken': taken, 'drain': drain}
+
+
 def address_shard(rec, shard):
     host, lo, hi = shard
     fs = check_address(host, lo, hi)
@@ -468,6 +556,8 @@ def main(ctx):
                                    [fail('address-invalid-accepted', f'parse_address({bad!r}) -> {r!r}')]))
         except ValueError:
             pass
+    for case in brokenpipe_cases():
+        ctx.check(case, classes=('broken-pipe',), sample=False)
     try:
         probe = socket.socket(socket.AF_INET, socket.SOCK_STREAM)
         probe.bind(('127.0.0.1', 0))
